@@ -166,7 +166,7 @@ func planC12(c *Ctx, run int64) *Plan {
 			}
 			dates = append(dates, "2031-03-09", "2024-02-29")
 			if c.Tier == "thorough" {
-				for i := 0; i < 12; i++ {
+				for i := 0; i < 60; i++ {
 					dates = append(dates, dateAdd("1990-01-01", r.IntN(16000)))
 				}
 			}
@@ -174,6 +174,7 @@ func planC12(c *Ctx, run int64) *Plan {
 				for _, d := range dates {
 					add(cat.Code, rate.Key, d, 3, q)
 					add(cat.Code, rate.Key, d, 4, q)
+					add(cat.Code, rate.Key, d, 5, q) // the table reached through a per-combo country override from another regime
 					if d >= "2000-01-02" {
 						add(cat.Code, rate.Key, d, 0, q)
 						add(cat.Code, rate.Key, d, 1, q)
@@ -375,13 +376,24 @@ func c12one(x *X, reg *pubRegime, loc *time.Location, cs c12case, step int) {
 	if len(tags) > 0 {
 		doc["$tags"] = tags
 	}
-	mode := []string{"clock-00:00:00", "clock-12:00:00", "clock-23:59:59", "issue_date", "value_date"}[op.I]
+	mode := []string{"clock-00:00:00", "clock-12:00:00", "clock-23:59:59", "issue_date", "value_date", "foreign-combo"}[op.I]
 	switch op.I {
 	case 3:
 		doc["issue_date"] = D
 	case 4:
 		doc["issue_date"] = dateAdd(D, 45)
 		doc["value_date"] = D
+	case 5:
+		// an invoice of another regime whose combo names this regime's country
+		host := "ES"
+		if strings.EqualFold(reg.file, "es") {
+			host = "PT"
+		}
+		doc["$regime"] = host
+		doc["supplier"] = map[string]any{"name": "Clock Supplier", "tax_id": map[string]any{"country": host}}
+		doc["currency"] = "EUR"
+		doc["issue_date"] = D
+		combo["country"] = strings.ToUpper(reg.Country)
 	}
 	db, _ := json.Marshal(doc)
 	x.Entropy(op.ID)
